@@ -40,7 +40,8 @@ def plan(name, tier):
     props = sweep.prop_args(name, 'quick' if tier == 'quick' else 'medium')
     # propositional soundness is decided exactly by C03; here a thinner slice runs under schedules/options
     for i, a in enumerate(props):
-        if i % (6 if tier == 'quick' else 2) == 0:
+        # every k-th argument, and every rule-shape argument (a literal against a negated / operand-negated binary)
+        if i % (6 if tier == 'quick' else 2) == 0 or (a.count(':') == 1 and len(a) >= 6 and a.count('N') >= 1 and len(a) <= 8):
             out.append(('prop', a))
     mod = sweep.modal_args(name, tier)
     fo = sweep.fo_args(name, tier)
